@@ -3,7 +3,7 @@ CONSTANTS
   Cons = {"s1", "s2"}
   Healthy = {}
   Other = {}
-  N = 2
+  N = 1
   HCap = 64
   Parts = 1
   ElemParts = 1
@@ -11,7 +11,7 @@ CONSTANTS
   EnqAcct = TRUE
   HasDeadline = FALSE
   Prime = FALSE
-  MaxPub = 3
+  MaxPub = 2
   MaxRead = 2
   MaxStall = 2
   MaxSweep = 0
